@@ -3,8 +3,11 @@ DESIGN = {
     "Calendar": dict(module="MC_Calendar", quick="MC_Calendar_quick.cfg", thorough="MC_Calendar_thorough.cfg", workers=8),
 }
 GEN = {}
+LEMMAS = {
+    "Periodic400": dict(file="Periodic400.tla", invs=["Periodic", "WeekdayPeriodic", "YearLength", "MonthLength"]),
+}
 PROPS = {
-    "C01": dict(design=["Calendar"], drive="C01", exhaustive=False,
+    "C01": dict(design=["Calendar"], lemmas=["Periodic400"], drive="C01", exhaustive=False,
                 level_text="Calendar.tla defines the proleptic Gregorian calendar from first principles; MC_Calendar model-checks the property's own statement "
                            "(bijection of the four forms, exact constructor domains, order, successor, 400-year periodicity) on bounded windows; every recorded "
                            "NaiveDate call (all forms of every date in the judged windows, constructor argument lattice, random tuples, order) is validated "
